@@ -122,14 +122,21 @@ def toMatR (m n : Nat) (rows : List (List ℚ)) : Option (Matrix (Fin m) (Fin n)
 /-- `project_onto_cotangent_space` (systems.py): `mom - Cᵀ (Ginv (C (N mom)))`. -/
 def projLin {m n : Nat} (C : Matrix (Fin m) (Fin n) ℚ) (N : Mat n) (Ginv : Matrix (Fin m) (Fin m) ℚ)
     (p : Vec n) : Vec n :=
-  force (p - C.transpose.mulVec (Ginv.mulVec (C.mulVec (N.mulVec p))))
+  -- p - Cᵀ (Ginv (C (N p))), intermediates materialised (`force` is the identity)
+  let a := force (N.mulVec p)
+  let b := force (C.mulVec a)
+  let c := force (Ginv.mulVec b)
+  force (p - C.transpose.mulVec c)
 
 /-- Exact solution of the projection equation for a linear constraint (cf. `retract` in
 Model/IntegratorsTangent.lean): `ν = Cᵀ Ginv (C pos − d)`, `pos -= N ν`, `mom -= ν / t`. -/
 def retrLin {m n : Nat} (C : Matrix (Fin m) (Fin n) ℚ) (d : Fin m → ℚ) (N : Mat n)
     (Ginv : Matrix (Fin m) (Fin m) ℚ) (t : ℚ) (xf _prev : Vec n × Vec n) : Res (Vec n × Vec n) :=
-  let ν := force (C.transpose.mulVec (Ginv.mulVec (C.mulVec xf.1 - d)))
-  .ok (force2 (xf.1 - N.mulVec ν, xf.2 - t⁻¹ • ν))
+  let r := force (C.mulVec xf.1 - d)
+  let gr := force (Ginv.mulVec r)
+  let ν := force (C.transpose.mulVec gr)
+  let nν := force (N.mulVec ν)
+  .ok (force2 (xf.1 - nν, xf.2 - t⁻¹ • ν))
 
 def handleCon (toks : List String) : Option String :=
   match toks with
